@@ -376,6 +376,10 @@ def pg_classify(case, reason, line):
     kinds = "".join(res[p]["kind"][0] for p in "ISCT")
     if reason == "failure-not-in-every-paradigm" and case.get("dup") and "duplicated key" in res["I"]["msg"] and kinds == "eooo":
         return "fanin-dup-key"
+    if any("interface is nil, not" in res[p]["msg"] and "ConcatItems" in res[p]["msg"] for p in "ISCT"):
+        # two or more NIL chunks of an interface-typed stream had to be concatenated: internal.ConcatItems asserts the (nil) result
+        # back to T and panics
+        return "concat-nil-interface-chunks"
     det = ""
     if case["shape"] == "fank":
         det = "-width%d" % len(case["nodes"])
@@ -406,6 +410,9 @@ def c04(tier, repo=None):
                 # native-form subset incl. invoke-only
                 ("nmap", dict(Shapes=["nmap", "nmapn"], NatFam="six", OCs=[1, 2, 3], InFam="two", MaxNodes=2), None),
                 ("handlers", dict(MaxNodes=2, NatFam="four", OCs=[2], InFam="two", Handlers=["none", "val", "str"], AllowAny=True, AllowFail=True), 2500),
+                # nil interface values on interface-typed edges: nil node output to END / to the next node (any, user interface), nil graph
+                # input, nil into a branch condition
+                ("nil", dict(Shapes=["nil1", "nil2", "nilif", "nilin", "nilbr"], NatFam="four", OCs=[1, 2], InFam="two", MaxNodes=3), None),
                 # last, because a hanging merge uses up the harness's quota of hung calls and the rest is then not run
                 ("wide", dict(Shapes=["fank"], NatFam="four", OCs=[2, 3], InFam="two", MaxNodes=6), None)]
     else:
@@ -415,6 +422,7 @@ def c04(tier, repo=None):
                 ("fmap", dict(Shapes=["fmap"], NatFam="all15", OCs=[1, 2, 3], InFam="five", MaxNodes=2, AllowFail=True), 20000),
                 ("nmap", dict(Shapes=["nmap", "nmapn"], NatFam="all15", OCs=[1, 2, 3], InFam="five", MaxNodes=2, AllowFail=True), 20000),
                 ("handlers", dict(MaxNodes=2, NatFam="six", OCs=[2], InFam="three", Handlers=["none", "val", "str"], AllowAny=True, AllowFail=True), 40000),
+                ("nil", dict(Shapes=["nil1", "nil2", "nilif", "nilin", "nilbr"], NatFam="six", OCs=[1, 2, 3], InFam="three", MaxNodes=3, AllowFail=True), 40000),
                 ("wide", dict(Shapes=["fank"], NatFam="four", OCs=[1, 2, 3], InFam="five", MaxNodes=6, AllowFail=True), 20000)]
     cases, seen, gen_stats = [], set(), []
     states = trans = 0
